@@ -16,7 +16,9 @@ oracle: the property itself on the real code, without the model
     coverage: the group of every alignment is the label of the file that stores the read;
   * the real pipeline on synthetic data: {tag, read_id, file, file_name, implicit file_name with >= 2 BAMs whose loci /
     chromosomes are partly missing from earlier-listed files} x {matrix, linear, both} with reads that
-    have no group, groups missing from a chromosome, 1-2 threads, two hash seeds.
+    have no group, groups missing from a chromosome, 1-2 threads, two hash seeds; table mode with read ids that start
+    with '#', groups that end with a blank and the empty group; --yaml with integer labels; one run with blank-padded
+    BAM tag values killed after a `_collected` lock and resumed (check_resume_run).
 """
 import json
 import os
@@ -31,9 +33,10 @@ from props import C09_growth as GR
 
 ID = "C09"
 PROPS = ["IsoVerif/Props/C09.lean", "IsoVerif/Props/C09Groupers.lean", "IsoVerif/Props/C09Tables.lean",
-         "IsoVerif/Props/C09Profiles.lean", "IsoVerif/Props/C09Labels.lean", "IsoVerif/Props/C09Tpm.lean", "IsoVerif/Props/C09TablesChrom.lean"]
+         "IsoVerif/Props/C09Profiles.lean", "IsoVerif/Props/C09Labels.lean", "IsoVerif/Props/C09Tpm.lean", "IsoVerif/Props/C09TablesChrom.lean",
+         "IsoVerif/Props/C09Files.lean"]
 TARGETS = ["IsoVerif.Props.C09", "IsoVerif.Props.C09Groupers", "IsoVerif.Props.C09Tables", "IsoVerif.Props.C09Profiles",
-           "IsoVerif.Props.C09Labels", "IsoVerif.Props.C09Tpm", "IsoVerif.Props.C09TablesChrom"]
+           "IsoVerif.Props.C09Labels", "IsoVerif.Props.C09Tpm", "IsoVerif.Props.C09TablesChrom", "IsoVerif.Props.C09Files"]
 GEN_DEPS = ["Enums", "EventClasses", "Strategies", "ReadGroups", "CounterTables"]
 LEVEL = "proof"
 RULE = ("split/strip: exhaustive strings over {a,_,:} up to length 5 x 6 delimiters + random unicode; groupers: seeded call "
@@ -45,12 +48,22 @@ TRUSTED = ["Gen/ReadGroups.lean (NA label, default tag, option keywords) is extr
            "Python's str.split / str.strip / sorted on str are modelled (pySplit, pyStrip, sortStr) and cross-checked each run",
            "'%.2f' float formatting and float addition of 1.0 and 1.0/k: the model is exact (Rat); files are compared to the "
            "exact value within 0.005 + 1e-9, in-memory floats within 1e-9",
-           "pysam get_tag raises KeyError for a missing tag; AlignmentFile iteration order = file order (split_read_group_table)"]
+           "pysam get_tag raises KeyError for a missing tag; AlignmentFile iteration order = file order (split_read_group_table)",
+           "the dump / re-read statements of the <save>_<chr>_groups file are cut out of collect_reads_in_parallel by their "
+           "syntax tree (C09_growth._groups_file_code) and executed on a stand-in grouper; a kill->resume pipeline run "
+           "(harness/c07_wrap.py) exercises them in place"]
 ASSUMPTIONS = ["group names, read ids and feature ids contain no tab / newline (TSV structure); tag values are str or int",
                "the stub assignment extractor of the correspondence returns the case's features / type / confirms flag "
                "(the real extractors are the subject of C02)",
                "float sums compared to exact rationals within 1e-9 (in memory) and 0.005+1e-9 (printed with %.2f)",
-               "the info-file round trip of the group universe (write_string/read_string) is the subject of C15"]
+               "the info-file round trip of the group universe (write_string/read_string) is the subject of C15",
+               "YAML labels: strings and integers are modelled (TagVal); any other scalar is stored as Python's str(value)",
+               "the model of the internal text files (per-chromosome read-group tables, <save>_<chr>_groups) describes the "
+               "code with the candidate patches fix_D1 / fix_D2 / fix_D3 applied: on a tree without them the check reports "
+               "VIOLATION with replays of the three defects (kinds wrong_group/split_table, file_label_not_string, "
+               "groups_file_roundtrip, pipeline matrix_header / group_of_read / abort)",
+               "files are opened with newline='\\n' on both ends (no translation): the text written is the text read; BAM "
+               "read names contain no tab / newline"]
 
 HELPER = os.path.join(vlib.HERE, "gen", "groups_helper.py")
 EPS = 1e-9
@@ -997,42 +1010,58 @@ def build_dataset(ds_seed, mode, d):
         paths = ds.write(d)
         bams = [paths["bam"]]
     elif kind == "file":
+        # default layout (read id, group, further columns): blank lines, a comment, malformed rows, a row of a read that
+        # does not exist; the group column is not the last one, so a group may END WITH A BLANK (it belongs to the group)
         tab = os.path.join(d, "groups.tsv")
+        lines = ["# read\tgroup", ""]
+        padded = False
+        for r in ds.reads:
+            x = rng.random()
+            if x < 0.2:
+                if x < 0.05:
+                    lines.append(r["name"])            # malformed row: skipped
+            else:
+                g = pick(r)
+                if rng.random() < 0.15 or not padded:
+                    g, padded = g + " ", True
+                lines.append("%s\t%s\tignored" % (r["name"], g))
+        lines.append("not_a_read\tghost")
         with open(tab, "w") as f:
-            f.write("# read\tgroup\n\n")
-            for r in ds.reads:
-                x = rng.random()
-                if x < 0.2:
-                    doc[r["name"]] = "NA"
-                    if x < 0.05:
-                        f.write("%s\n" % r["name"])        # malformed row: skipped
-                else:
-                    g = pick(r)
-                    doc[r["name"]] = g
-                    f.write("%s\t%s\tignored\n" % (r["name"], g))
-            f.write("not_a_read\tghost\n")
+            f.write("".join(l + "\n" for l in lines))
+        tdoc = GR.doc_table_map(lines, "\t", 0, 1)
+        doc = {r["name"]: tdoc.get(r["name"], "NA") for r in ds.reads}
         paths = ds.write(d)
         bams = [paths["bam"]]
         mode = "file:" + tab
     elif kind == "filecsv":
-        # file:FILE:READ_COL:GROUP_COL:DELIM with swapped columns, a comma and group names that contain blanks
+        # file:FILE:READ_COL:GROUP_COL:DELIM with swapped columns and a comma: group names that contain blanks, END with a
+        # blank, the empty group; read ids that start with '#' (a legal first character of a BAM read name)
         tab = os.path.join(d, "groups.csv")
+        lines = []
+        for i, r in enumerate(ds.reads):
+            if i == 0 or rng.random() < 0.12:
+                r["name"] = "#" + r["name"]
+            if i > 1 and rng.random() < 0.2:
+                continue
+            g = pick(r).replace("_", " ")
+            y = rng.random()
+            if i == 1 or y < 0.12:
+                g = g + " "
+            elif y < 0.18:
+                g = ""
+            lines.append("%s,%s,extra" % (g, r["name"]))
         with open(tab, "w") as f:
-            for r in ds.reads:
-                if rng.random() < 0.2:
-                    doc[r["name"]] = "NA"
-                else:
-                    g = pick(r).replace("_", " ")
-                    doc[r["name"]] = g
-                    f.write("%s,%s,extra\n" % (g, r["name"]))
+            f.write("".join(l + "\n" for l in lines))
+        tdoc = GR.doc_table_map(lines, ",", 1, 0)
+        doc = {r["name"]: tdoc.get(r["name"], "NA") for r in ds.reads}
         paths = ds.write(d)
         bams = [paths["bam"]]
         mode = "file:%s:1:0:," % tab
-    elif kind in ("file_name", "implicit"):
+    elif kind in ("file_name", "implicit", "yaml_int"):
         # several BAM files of one experiment with partly disjoint coverage: every gene (= locus, a cluster of
         # overlapping reads) is covered by a proper subset of the files, some loci and (often) a whole chromosome are
         # missing from an EARLIER-listed file while a later-listed one covers them
-        nfiles = rng.choice([3, 3, 4, 2]) if (kind == "implicit" or rng.random() < 0.9) else 1
+        nfiles = rng.choice([3, 3, 4, 2]) if (kind in ("implicit", "yaml_int") or rng.random() < 0.9) else 1
         names = ["A", "b.x", "counts_C", "d"][:nfiles]
         gene_of = lambda r: "_".join(r["name"].split("_")[1:3])
         genes = sorted({(r["chr"], gene_of(r)) for r in ds.reads})
@@ -1060,12 +1089,21 @@ def build_dataset(ds_seed, mode, d):
         for nm, b in zip(names[1:], buckets[1:]):
             bams.append(ds.write(d, bam_name=nm + ".bam", reads=b, write_ref=False)["bam"])
         labels = None
-        if rng.random() < 0.5:
+        if kind == "yaml_int":
+            labels = [1, 2, 10, 3][:nfiles]                  # `labels: [1, 2, 10]`: YAML integers, grouped by their printed value
+        elif rng.random() < 0.5:
             labels = ["L%d" % i for i in range(nfiles)]
             extra += ["--labels"] + labels
         for i, b in enumerate(buckets):
             for r in b:
-                doc[r["name"]] = labels[i] if labels else names[i]
+                doc[r["name"]] = str(labels[i]) if labels else names[i]
+        if kind == "yaml_int":
+            import yaml
+            yf = os.path.join(d, "data.yaml")
+            with open(yf, "w") as f:
+                yaml.safe_dump([{"data format": "bam"}, {"name": "S", "long read files": bams, "labels": labels}], f)
+            return (["--yaml", yf, "--reference", paths["ref"], "--genedb", paths["gtf"], "--complete_genedb", "--data_type",
+                     "nanopore", "--no_gzip", "--read_group", "file_name"], doc)
     else:
         raise RuntimeError(mode)
     args = ["--bam"] + bams + ["--reference", paths["ref"], "--genedb", paths["gtf"], "--complete_genedb",
@@ -1181,11 +1219,28 @@ def check_pipeline_run(cfg):
         shutil.rmtree(d, ignore_errors=True)
 
 
+def _read_assignments(path):
+    """read_assignments.tsv -> list of dicts; the header is the last '#' line before the first record (a read id may itself
+    start with '#', so '#' lines after the header are records)"""
+    res, hdr, in_body = [], None, False
+    with open(path) as f:
+        for l in f:
+            if l.startswith("#") and not in_body:
+                hdr = l[1:].rstrip("\n").split("\t")
+                continue
+            p = l.rstrip("\n").split("\t")
+            if hdr and len(p) != len(hdr) and not in_body:
+                continue
+            in_body = True
+            res.append(dict(zip(hdr, p)) if hdr else p)
+    return res
+
+
 def _check_group_of_read(files, doc, summary):
     import pipeline as P
     res = []
     # reference transcripts, default strategy unique_only: unique / unique_minor_difference reads count 1
-    ra = P.read_assignments(files["S.read_assignments.tsv"])
+    ra = _read_assignments(files["S.read_assignments.tsv"])
     per = {}
     tot = {}
     for r in ra:
@@ -1206,7 +1261,9 @@ def _check_group_of_read(files, doc, summary):
                 res.append(("group_of_read", "transcript %s (%s): table %s, reads by documented group %s" % (f, which, got, want)))
                 break
     # transcript models: every read of transcript_model_reads.tsv counts for its model (1/k when listed for k models)
-    tmr = P.read_lines(files["S.transcript_model_reads.tsv"])
+    # only the first line is a header: a read id may itself start with '#'
+    tmr = [l for l in P.read_lines(files["S.transcript_model_reads.tsv"], skip_header=False)
+           if l and l != "#read_id\ttranscript_id"]
     by_read = {}
     for l in tmr:
         rid, tid = l.split("\t")[:2]
@@ -1258,6 +1315,64 @@ def _check_exon_partition(files, universe):
     return res
 
 
+def check_resume_run(cfg):
+    """`--read_group tag:CB` with tag values that begin / end with a blank, two chromosomes; the run is killed right after
+    the `_collected` lock of a chromosome was written (cfg["locks"]: indices into the list of such mutations) and restarted
+    with --resume.  The resumed run re-reads the `_groups` file of the finished chromosome: it must finish and print the
+    grouped tables of the uninterrupted run.  Returns list of (kind, detail, lock index)."""
+    import pipeline as P
+    from gen import c07_runs as R, synth
+    base = P.scratch("isoverif_c09k_")
+    res = []
+    try:
+        ds = synth.simple_dataset(seed=cfg["ds_seed"], n_chroms=2, genes_per_chrom=2, reads_per_tx=4)
+        vals = ["cell A ", " cell B", "cellC"]
+        for i, r in enumerate(ds.reads):
+            r["tags"] = [("CB", vals[i % 3], "Z")]
+        universe = sorted(vals)
+        paths = ds.write(os.path.join(base, "data"))
+        args = ["--threads", "1", "--bam", paths["bam"], "--reference", paths["ref"], "--data_type", "nanopore", "-p", "S",
+                "--no_gzip", "--genedb", paths["gtf"], "--complete_genedb", "--read_group", "tag:CB"]
+        data = {"paths": paths}
+
+        def grouped(out):
+            return {fn: P.strip_cmdline(open(p_, errors="replace").read()) for fn, p_ in P.out_files(out, "S").items() if "grouped" in fn}
+
+        wd = os.path.join(base, "clean")
+        os.makedirs(wd)
+        rc, log, tr = R.run_wrapped(wd, {}, data, args=args)
+        if rc != 0:
+            return [("abort", "uninterrupted run exited with %s: %s" % (rc, log.strip().split("\n")[-1:]), None)]
+        clean = grouped(os.path.join(wd, "out"))
+        locks = [n for n, op, rel in tr if n is not None and rel.endswith("_collected") and op.startswith("open")]
+        if not locks:
+            return [("resume_not_exercised", "no _collected lock in the mutation trace", None)]
+        for li in cfg["locks"]:
+            k = locks[li]
+            wd = os.path.join(base, "kill%d" % (li % len(locks)))
+            os.makedirs(wd)
+            rc1, _, _ = R.run_wrapped(wd, {}, data, crash=(k, "a"), args=args)
+            if rc1 == 0:
+                continue
+            rc2, log2, _ = R.run_wrapped(wd, {}, data, resume=True)
+            if rc2 != 0:
+                tail = [l for l in log2.strip().split("\n") if "Error" in l][-1:]
+                res.append(("abort", "run killed after mutation %d (a _collected lock), --resume exited with %s: %s" % (k, rc2, tail), li))
+                continue
+            got = grouped(os.path.join(wd, "out"))
+            _, hdr, _ = P.read_table(os.path.join(wd, "out", "S", "S.transcript_grouped_counts.tsv"))
+            if hdr is not None and sorted(hdr[1:]) != universe:
+                res.append(("matrix_header", "run killed after mutation %d (a _collected lock) and resumed: columns %s, documented "
+                            "groups %s" % (k, hdr[1:], universe), li))
+            elif got != clean:
+                bad = sorted(f for f in set(got) | set(clean) if got.get(f) != clean.get(f))
+                res.append(("resume_grouped_tables_differ", "run killed after mutation %d and resumed: %s differ from the "
+                            "uninterrupted run" % (k, bad), li))
+        return res
+    finally:
+        shutil.rmtree(base, ignore_errors=True)
+
+
 def pipeline_configs(ctx):
     rng = ctx.rng
     modes = ["tag:CB", "read_id:=", "file", "file_name"]
@@ -1266,8 +1381,8 @@ def pipeline_configs(ctx):
         for fmt in G.FORMATS:
             cfgs.append({"mode": m, "fmt": fmt, "threads": rng.choice([1, 2]), "hashseed": str(rng.choice([0, 1, 7, 42])),
                          "ds_seed": rng.randrange(10 ** 6), "exons": rng.random() < 0.35})
-    extra_modes = ["tag:HP", "read_id:_", "filecsv", "implicit", "file_name", "read_id:--", "tag:RG"]
-    for m in (extra_modes[:5] if ctx.tier == "quick" else extra_modes * 4 + modes * 6):
+    extra_modes = ["tag:HP", "read_id:_", "filecsv", "implicit", "file_name", "yaml_int", "read_id:--", "tag:RG"]
+    for m in (extra_modes[:6] if ctx.tier == "quick" else extra_modes * 4 + modes * 6):
         cfgs.append({"mode": m, "fmt": rng.choice(G.FORMATS), "threads": rng.choice([1, 2, 3]),
                      "hashseed": str(rng.randrange(1000)), "ds_seed": rng.randrange(10 ** 6), "exons": rng.random() < 0.35})
     return cfgs
@@ -1276,10 +1391,15 @@ def pipeline_configs(ctx):
 def oracle_pipeline(ctx, broken):
     cfgs = pipeline_configs(ctx)
     results = []
+    rcfg = {"ds_seed": ctx.rng.randrange(10 ** 6), "locks": [0, -1]}
     with ThreadPoolExecutor(max_workers=6) as ex:
+        rfut = ex.submit(check_resume_run, rcfg)
         futs = [(c, ex.submit(check_pipeline_run, c)) for c in cfgs]
         for c, fu in futs:
             results.append((c, fu.result()))
+        ctx.count("pipeline:kill_resume:tag")
+        for kind, det, li in rfut.result():
+            ctx.fail(kind, {"what": "pipeline_resume", "cfg": dict(rcfg, locks=[li] if li is not None else rcfg["locks"])}, det)
     checked = 0
     for c, (res, summary) in results:
         ctx.count("pipeline:%s:%s" % (c["mode"].split(":")[0], c["fmt"]))
@@ -1318,7 +1438,7 @@ def replay(ctx, failure):
     inp = failure["input"]
     kind = failure["kind"]
     what = inp.get("what")
-    if what in ("labels_cmd", "labels_yaml", "grouped_tpm", "split_table"):
+    if what in ("labels_cmd", "labels_yaml", "grouped_tpm", "split_table", "groups_file"):
         return GR.replay(ctx, failure)
     if what == "grouper":
         tmp = tempfile.mkdtemp(prefix="isoverif_c09r_")
@@ -1348,6 +1468,8 @@ def replay(ctx, failure):
     if what == "pipeline":
         res, _ = check_pipeline_run(inp["cfg"])
         return any(k == kind for k, _ in res)
+    if what == "pipeline_resume":
+        return any(k == kind for k, _, _ in check_resume_run(inp["cfg"]))
     if what == "pipeline_pair":
         (r1, s1), (r2, s2) = [check_pipeline_run(c) for c in inp["cfgs"]]
         return s1 != s2
